@@ -163,6 +163,18 @@ CHECKS["C18"] = (
     "DESIGN.md 5.1, 6 (C18)",
 )
 
+CHECKS["C13"] = (
+    "model_checking",
+    "exhaustive enumeration of token boundaries x insertions, of dependency-respecting permutations, and breadth-first search over typedef/add_type histories against a dictionary model",
+    "29 corpus texts covering the definition grammar: at EVERY token boundary found by an independent lexer (bracket interiors, #define lines, "
+    "config flags and existing comments are atomic) each of 10 insertions (white space and comment forms, incl. comments containing definition "
+    "syntax or the other comment marker) - and all pairs for short texts - must leave names, layouts, members, constants and the parse of a "
+    "fixed input unchanged; so must every dependency-respecting permutation of the top-level definitions and definition-by-definition loading. "
+    "All built-in synonyms and typedef groups resolve to the very same type object. BFS (depth 3/4 over 11 operations) over typedef / add_type "
+    "histories: accepted / ValueError / ResolveError exactly as a dictionary model predicts, never a loop or a different binding.",
+    "DESIGN.md 6 (C13)",
+)
+
 NOT_APPLICABLE = {}
 
 
